@@ -16,6 +16,7 @@
 package main
 
 import (
+	"fmt"
 	"math"
 	"math/big"
 	"sort"
@@ -87,6 +88,8 @@ func generalPositionWide(ps []P) bool {
 // ---- the float64 reference expressions with their safety margin
 const margin = 1.0 / (1 << 40)
 
+var faithfulWhy string // why the last faithful() call refused (diagnostics only)
+
 func incircleFloat(a, b, c, p [2]float64) (sign int, robust bool) {
 	ax, ay := a[0]-p[0], a[1]-p[1]
 	bx, by := b[0]-p[0], b[1]-p[1]
@@ -118,8 +121,9 @@ func orientFloat(a, b, c [2]float64) (sign int, robust bool) {
 
 // faithful: exact shadow run of bowyerWatson (set semantics) on the grid points, cross-checking every
 // predicate against its float64 evaluation.  Also returns, for the distribution counters, whether the
-// run leaves an input point without any triangle although triangles remain.
-func faithful(ps []P) (ok bool, orphan bool) {
+// run leaves an input point without any triangle although triangles remain, and the largest cavity
+// (number of bad triangles of one insertion = degree of the point when inserted).
+func faithful(ps []P) (ok bool, orphan bool, maxCavity int) {
 	n := len(ps)
 	sv := superVerts2(ps) // doubled coordinates
 	Q := make([]P, n+3)   // doubled
@@ -149,7 +153,8 @@ func faithful(ps []P) (ok bool, orphan bool) {
 			e := incircleSign(Q[t[0]], Q[t[1]], Q[t[2]], Q[i])
 			f, robust := incircleFloat(F[t[0]], F[t[1]], F[t[2]], F[i])
 			if e == 0 || !robust || f != e {
-				return false, false
+				faithfulWhy = fmt.Sprintf("incircle tri=%v pt=%d exact=%d float=%d robust=%v", t, i, e, f, robust)
+				return false, false, 0
 			}
 			if e < 0 {
 				bad = append(bad, t)
@@ -158,6 +163,9 @@ func faithful(ps []P) (ok bool, orphan bool) {
 			}
 		}
 		cur = keep
+		if len(bad) > maxCavity {
+			maxCavity = len(bad)
+		}
 		for ti, t := range bad {
 			for _, e := range edgesOf(t) {
 				shared := false
@@ -177,7 +185,8 @@ func faithful(ps []P) (ok bool, orphan bool) {
 				o := orientSign(Q[e[0]], Q[e[1]], Q[i])
 				f, robust := orientFloat(F[e[0]], F[e[1]], F[i])
 				if o == 0 || !robust || f != o {
-					return false, false
+					faithfulWhy = fmt.Sprintf("orient edge=%v pt=%d exact=%d float=%d robust=%v", e, i, o, f, robust)
+					return false, false, 0
 				}
 				nt := tri{e[0], e[1], i}
 				if o > 0 {
@@ -202,7 +211,7 @@ func faithful(ps []P) (ok bool, orphan bool) {
 			orphan = true
 		}
 	}
-	return true, orphan
+	return true, orphan, maxCavity
 }
 
 // wideOK: the replacement of exactOK for wide inputs
@@ -218,7 +227,7 @@ func wideOK(d desc) bool {
 	if d.Shift < -20 || d.Shift > 20 || extent(ps) > 1<<21 {
 		return false
 	}
-	ok, _ := faithful(ps)
+	ok, _, _ := faithful(ps)
 	return ok
 }
 
@@ -301,4 +310,134 @@ func dedupe(ps []P) []P {
 		}
 	}
 	return out
+}
+
+// ---- generator: wheels.  k points in convex position (circle, ellipse or parabola arc, slightly
+// perturbed), optionally a nested inner ring, and 1-3 hub points near the centre inserted last (or
+// first, or in the middle): the hub's cavity is (almost) the whole triangulation of the ring, so one
+// insertion removes and re-fans up to k-2 triangles — cavity sizes the other streams never reach.
+func okToAdd(ps []P, p P) bool {
+	n := len(ps)
+	for i := 0; i < n; i++ {
+		if ps[i] == p {
+			return false
+		}
+		for j := i + 1; j < n; j++ {
+			if orient(ps[i], ps[j], p) == 0 {
+				return false
+			}
+			for k := j + 1; k < n; k++ {
+				if incircleSign(ps[i], ps[j], ps[k], p) == 0 {
+					return false
+				}
+			}
+		}
+	}
+	return true
+}
+
+func genWheel(r *hx.Rng, maxK int) desc {
+	for {
+		k := r.Range(8, 28)
+		if r.Chance(1, 2) {
+			k = r.Range(18, maxK)
+		}
+		R := float64(r.Range(150, 3900))
+		ax, by := R, R
+		shape := r.Intn(4)
+		switch shape {
+		case 1: // ellipse
+			by = R * (0.3 + 0.7*r.Float())
+		case 2:
+			ax = R * (0.3 + 0.7*r.Float())
+		}
+		pert := int64(r.Range(0, 3))
+		if r.Chance(1, 3) {
+			pert = int64(R / float64(r.Range(20, 80)))
+		}
+		jit := func() int64 {
+			if pert == 0 {
+				return 0
+			}
+			return int64(r.Intn(int(2*pert+1))) - pert
+		}
+		var ring []P
+		ringAt := func(k int, ax, by float64, into []P, all []P) []P {
+			phase := r.Float()
+			for i := 0; i < k; i++ {
+				for tries := 0; tries < 30; tries++ {
+					th := 2 * math.Pi * (float64(i) + phase + 0.3*(r.Float()-0.5)) / float64(k)
+					var p P
+					if shape == 3 { // parabola arc, closed by its chord: still convex position
+						x := (2*(float64(i)+0.5*r.Float())/float64(k) - 1) * ax
+						p = P{int64(math.Round(x)) + jit(), int64(math.Round(x*x/ax)) + jit()}
+					} else {
+						p = P{int64(math.Round(ax*math.Cos(th))) + jit(), int64(math.Round(by*math.Sin(th))) + jit()}
+					}
+					if okToAdd(append(append([]P(nil), all...), into...), p) {
+						into = append(into, p)
+						break
+					}
+				}
+			}
+			return into
+		}
+		ring = ringAt(k, ax, by, nil, nil)
+		var inner []P
+		if shape != 3 && r.Chance(1, 3) { // nested ring
+			f := 0.3 + 0.4*r.Float()
+			inner = ringAt(r.Range(5, k), ax*f, by*f, nil, ring)
+		}
+		// hubs near the centre (for the parabola: inside the arc, near its axis)
+		cx, cy := 0.0, 0.0
+		if shape == 3 {
+			cy = ax * 0.5
+		}
+		var hubs []P
+		nh := r.Range(1, 3)
+		for len(hubs) < nh {
+			rad := math.Min(ax, by) / float64(r.Range(6, 40))
+			p := P{int64(math.Round(cx + rad*(2*r.Float()-1))), int64(math.Round(cy + rad*(2*r.Float()-1)))}
+			if okToAdd(append(append(append([]P(nil), ring...), inner...), hubs...), p) {
+				hubs = append(hubs, p)
+			}
+		}
+		rest := append(append([]P(nil), ring...), inner...)
+		if r.Chance(1, 2) { // random insertion order of the rim (else: around the ring)
+			q := make([]P, len(rest))
+			for i, j := range r.Perm(len(rest)) {
+				q[i] = rest[j]
+			}
+			rest = q
+		}
+		var ps []P
+		name := "wheel-hub-last"
+		switch r.Intn(4) {
+		case 0:
+			name = "wheel-hub-first"
+			ps = append(append(ps, hubs...), rest...)
+		case 1:
+			name = "wheel-hub-middle"
+			m := len(rest) / 2
+			ps = append(append(append(ps, rest[:m]...), hubs...), rest[m:]...)
+		default:
+			ps = append(append(ps, rest...), hubs...)
+		}
+		x0, y0, _, _ := bbox(ps)
+		d := desc{Model: len(ps) <= 44, Wide: true, Gen: name}
+		for _, p := range ps {
+			d.Pts = append(d.Pts, [2]int64{p.x - x0, p.y - y0})
+		}
+		if r.Chance(2, 3) {
+			d.Shift = r.Range(-20, 20)
+			if r.Bool() {
+				mag := uint(r.Range(0, 36))
+				d.OffX = int64(r.U64()%(1<<mag)) * int64(1-2*r.Intn(2))
+				d.OffY = int64(r.U64()%(1<<mag)) * int64(1-2*r.Intn(2))
+			}
+		}
+		if len(ps) >= 4 && wideOK(d) {
+			return d
+		}
+	}
 }
